@@ -577,7 +577,23 @@ impl<'a> Interp<'a> {
             let mut b: Vec<String> = self.first_layout.iter().map(|s| format!("{s:?}")).collect();
             a.sort();
             b.sort();
-            if a == b && self.opts.continue_after_row_errors {
+            // The same holds for an answer that names every signal of the layout and something
+            // more (an unknown signal, an input, an entry twice with the same value): too many
+            // entries make the row an error item, yet every signal has its value.
+            let superset = {
+                let mut vals: HashMap<String, OutVal> = HashMap::new();
+                let mut consistent = true;
+                for (sg, v) in &outs {
+                    let k = format!("{sg:?}");
+                    if let Some(old) = vals.insert(k, *v) {
+                        if old != *v {
+                            consistent = false;
+                        }
+                    }
+                }
+                consistent && lay.len() > self.first_layout.len() && self.first_layout.iter().all(|s| lay.contains(s))
+            };
+            if (a == b || superset) && self.opts.continue_after_row_errors {
                 let answers: HashMap<String, OutVal> = outs
                     .iter()
                     .filter_map(|(s, v)| match s {
